@@ -40,7 +40,7 @@ var rpSpecial = []int64{1 << 29, 1 << 30, 1 << 31, 1 << 32, 1 << 33, 1 << 25, 1 
 var keyLenSpecial = []int64{1 << 38, maxInt - 32, maxInt - 31, maxInt, (1<<32-1)*32 + 1, math.MinInt64, 1 << 62}
 
 func gen(g *hx.Gen) {
-	n := g.Count(2500, 40000)
+	n := g.Count(2000, 40000)
 	r := g.R
 	emit := func(pw, salt []byte, N, rr, p, kl int64) {
 		switch {
